@@ -38,6 +38,7 @@ func C15(r *core.Run) {
 	rule0113(r)
 	rule1510(r)
 	rule105(r)
+	rule1511(r)
 }
 
 var boltMutators = map[string]bool{
@@ -869,4 +870,34 @@ func rule1510(r *core.Run) {
 		})
 	}
 	r.Floor("R15.10", 2, "calls of metaStore.deleteBucket")
+}
+
+// rule1511 — an empty metadata record is "no record", not a decoding error.
+func rule1511(r *core.Run) {
+	r.Rule("R15.11", "metaStore.loadMeta decodes the record (json.Unmarshal) only where the bytes read were found non-empty: saveMeta writes with a truncating open, so a process killed inside it leaves a zero-length record — decoding that unconditionally turns every later read and listing that visits the key into an error, while treating it like a missing record re-derives it")
+	fn := mustFunc(r, "s3afero.(*metaStore).loadMeta")
+	if fn == nil {
+		return
+	}
+	n := 0
+	core.Instrs(fn, func(in ssa.Instruction) {
+		c, ok := in.(*ssa.Call)
+		if !ok || r.P.CalleeName(c) != "encoding/json.Unmarshal" {
+			return
+		}
+		n++
+		guarded := false
+		for _, g := range core.GuardsOf(c) {
+			if lc, zero, known := lenZeroFact(g); known && !zero {
+				if call, isCall := lc.(*ssa.Call); isCall && len(call.Call.Args) == 1 && sameValue(r, core.Forward(call.Call.Args[0]), core.Forward(c.Call.Args[0]), 0) {
+					guarded = true
+				}
+			}
+		}
+		r.Check(guarded, "R15.11", key(fname(r, fn), "decode only a non-empty record", sprintf("#%d", n)), pos(r, c), "json.Unmarshal under len(bytes) > 0",
+			"the metadata record is decoded without a non-empty test of the bytes read: a zero-length record left by a killed write makes every read of the key (and every listing that visits it) fail after the restart")
+	})
+	if n == 0 {
+		r.Unresolved("R15.11: loadMeta no longer decodes the record with json.Unmarshal")
+	}
 }
